@@ -31,20 +31,24 @@ Definition sub16 (a b : N) : N := (a + two16 - b) mod two16.   (* a, b < 2^16 *)
      v_rollback   (0cedd79) the failure branch of tryRestoreSyncedMapping removes the subscriber's reverse entries
                   before it releases the subscriber's blocks *)
 Record variant := { v_validate : bool; v_replace : bool; v_dedup : bool; v_rollback : bool;
-                    v_vrfkey : bool; v_xpool : bool; v_late : bool }.
+                    v_vrfkey : bool; v_xpool : bool; v_late : bool; v_cfgcheck : bool; v_degrel : bool }.
 (*   v_vrfkey     (53e73c2) the component keys the pool by (inside VRF, inside address) instead of (0, inside address)
      v_xpool      (1fd8c60) cgnat.Config.Validate rejects two pools whose outside addresses overlap
      v_late       (8d8ac1d) a dataplane add that completes late is reconciled with what happened meanwhile: a release of the
                   session cancels the activation in flight (blocks and reverse entries released), a successful
                   completion commits only if the subscriber still holds the block, a failed one removes the
                   subscriber's reverse entries before releasing
-                  (exactness for every completion order: Properties.C15_reverse_lookup_exact). *)
+                  (exactness for every completion order: Properties.C15_reverse_lookup_exact).
+     v_cfgcheck   cgnat.Config.Validate rejects a port-range that is not start <= end <= 65535 and a derived block
+                  size of 0 (fixes/C15_validate_port_geometry.patch)
+     v_degrel     a release frees the mapping that the degraded restore branch preserved for a session that was not
+                  activated again (fixes/C15_release_preserved_mapping.patch) *)
 Definition repaired : variant :=
   {| v_validate := true; v_replace := true; v_dedup := true; v_rollback := true; v_vrfkey := true; v_xpool := true;
-     v_late := true |}.
+     v_late := true; v_cfgcheck := true; v_degrel := true |}.
 Definition defective : variant :=
   {| v_validate := false; v_replace := false; v_dedup := false; v_rollback := false; v_vrfkey := false;
-     v_xpool := false; v_late := false |}.
+     v_xpool := false; v_late := false; v_cfgcheck := false; v_degrel := false |}.
 
 (* ---------------------------------------------------------------- configuration *)
 Inductive outside := OIp (ip : N) | OCidr (ip len : N).
@@ -57,8 +61,15 @@ Record rawcfg := {
   r_outside : list outside;
   r_excluded : list N }.
 
-Definition get_pstart (r : rawcfg) : N := match r_range r with Some (a, _) => a | None => 1024 end.
-Definition get_pend (r : rawcfg) : N := match r_range r with Some (_, b) => b | None => 65535 end.
+(* parsePortRange: Sscanf("%d-%d") into two uint16; anything it cannot scan (a number above 65535) silently gives
+   the default range *)
+Definition parsed_range (r : rawcfg) : N * N :=
+  match r_range r with
+  | Some (a, b) => if (a <? two16) && (b <? two16) then (a, b) else (1024, 65535)
+  | None => (1024, 65535)
+  end.
+Definition get_pstart (r : rawcfg) : N := fst (parsed_range r).
+Definition get_pend (r : rawcfg) : N := snd (parsed_range r).
 Definition get_range_size (r : rawcfg) : N := (get_pend r + two32 - get_pstart r + 1) mod two32.
 Definition get_bs (r : rawcfg) : N :=
   if 0 <? r_bs r then r_bs r
@@ -66,6 +77,10 @@ Definition get_bs (r : rawcfg) : N :=
   else 512.
 Definition get_max (r : rawcfg) : N := if 0 <? r_max r then r_max r else 4.
 Definition get_paired (r : rawcfg) : bool := (r_pooling r =? 0) || (r_pooling r =? 1).
+
+(* what Config.Validate checks of one pool's port geometry (after the fix) *)
+Definition pool_ok (r : rawcfg) : bool :=
+  match r_range r with Some (a, b) => (a <=? b) && (b <? two16) | None => true end && negb (get_bs r =? 0).
 
 Record cfg := { c_bs : N; c_pstart : N; c_pend : N; c_max : N; c_paired : bool }.
 Definition effective (r : rawcfg) : cfg :=
@@ -172,6 +187,10 @@ Definition configure (v : variant) (r : rawcfg) : option pool :=
                                          a_excl := existsb (N.eqb ip) (r_excluded r) |})
                            (outside_ips v r);
             p_subs := [] |}.
+
+(* Config.Validate, then ConfigurePool.  None: the configuration is rejected, or ConfigurePool panics *)
+Definition setup (v : variant) (r : rawcfg) : option pool :=
+  if v_cfgcheck v && negb (pool_ok r) then None else configure v r.
 
 (* ---------------------------------------------------------------- subscriber map *)
 Definition sub_get (k : N) (subs : list (N * list block)) : option (list block) :=
@@ -429,7 +448,9 @@ Definition rev_lookup (ri : rindex) (ip port : N) : option mapping :=
 Definition pk (v : variant) (k : N) : N := if v_vrfkey v then k else k mod 65536.
 
 (* cp_pend: activations whose dataplane add is still in flight: (session, pool key, block) *)
-Record comp := { cp_pool : pool; cp_rev : rindex; cp_sess : list N; cp_pend : list (N * N * block) }.
+(* cp_deg: sessions whose mapping the degraded restore branch preserved (Component.preserved) *)
+Record comp := { cp_pool : pool; cp_rev : rindex; cp_sess : list N; cp_pend : list (N * N * block);
+                 cp_deg : list N }.
 Definition sess_add (sid : N) (l : list N) : list N := if existsb (N.eqb sid) l then l else l ++ [sid].
 Definition sess_del (sid : N) (l : list N) : list N := filter (fun x => negb (x =? sid)) l.
 Definition pend_sid (e : N * N * block) : N := fst (fst e).
@@ -454,13 +475,13 @@ Inductive cop :=
     (* restoreFromOpDB, session present; bulk = 0 reprogram ok (commitRestoredPBA), 1 per-mapping error,
        2 transport error.  After a failed reprogram nothing is committed and scanNonPBASessions treats the session
        as a new activation (obs = the block that activation is given, if any) *)
-| CRestoreDegraded (mk : N) (mb : block)     (* restoreFromOpDB, session cache miss but access record retained *)
+| CRestoreDegraded (sid mk : N) (mb : block) (* restoreFromOpDB, session sid: cache miss but access record retained *)
 | CComplete.                                 (* deferred dataplane delete callbacks fire (any order) *)
 
 Definition commit_mapping (v : variant) (s : comp) (p : pool) (sid k : N) (b : block) : comp :=
-  {| cp_pool := p; cp_rev := rev_add v (cp_rev s) k b; cp_sess := sess_add sid (cp_sess s); cp_pend := cp_pend s |}.
+  {| cp_pool := p; cp_rev := rev_add v (cp_rev s) k b; cp_sess := sess_add sid (cp_sess s); cp_pend := cp_pend s; cp_deg := cp_deg s |}.
 Definition with_pool (s : comp) (p : pool) : comp :=
-  {| cp_pool := p; cp_rev := cp_rev s; cp_sess := cp_sess s; cp_pend := cp_pend s |}.
+  {| cp_pool := p; cp_rev := cp_rev s; cp_sess := cp_sess s; cp_pend := cp_pend s; cp_deg := cp_deg s |}.
 
 Definition pba_activate (v : variant) (c : cfg) (s : comp) (sid k : N) (dp_ok : bool) (obs : option block)
   : comp * out :=
@@ -482,7 +503,7 @@ Definition cstep (v : variant) (c : cfg) (s : comp) (o : cop) : comp * out :=
            | (p', RBlock false b) => (commit_mapping v s p' sid (pk v k) b, RBlock false b)
            | (p', RBlock true b) =>
                ({| cp_pool := p'; cp_rev := cp_rev s; cp_sess := cp_sess s;
-                   cp_pend := cp_pend s ++ [(sid, pk v k, b)] |}, RBlock true b)
+                   cp_pend := cp_pend s ++ [(sid, pk v k, b)]; cp_deg := cp_deg s |}, RBlock true b)
            | (p', o) => (with_pool s p', o)
            end
   | CAddComplete sid ok =>
@@ -492,7 +513,7 @@ Definition cstep (v : variant) (c : cfg) (s : comp) (o : cop) : comp * out :=
           let k := snd (fst e) in
           let b := snd e in
           let s1 := {| cp_pool := cp_pool s; cp_rev := cp_rev s; cp_sess := cp_sess s;
-                       cp_pend := filter (fun e => negb (pend_sid e =? sid)) (cp_pend s) |} in
+                       cp_pend := filter (fun e => negb (pend_sid e =? sid)) (cp_pend s); cp_deg := cp_deg s |} in
           if ok then
             if v_late v && negb (existsb (block_eqb b) (blocks_of (cp_pool s) k)) then (s1, ROk)
             else (commit_mapping v s1 (cp_pool s) sid k b, ROk)
@@ -501,7 +522,7 @@ Definition cstep (v : variant) (c : cfg) (s : comp) (o : cop) : comp * out :=
                 cp_rev := if v_late v
                           then fold_left (fun ri b => rev_remove ri (b_ip b) (b_start b)) (blocks_of (cp_pool s) k) (cp_rev s)
                           else cp_rev s;
-                cp_sess := cp_sess s1; cp_pend := cp_pend s1 |}, ROk)
+                cp_sess := cp_sess s1; cp_pend := cp_pend s1; cp_deg := cp_deg s |}, ROk)
       end
   | CSynced sid k mk mb dp_ok obs =>
       if busy s sid then (s, ROk)
@@ -514,21 +535,24 @@ Definition cstep (v : variant) (c : cfg) (s : comp) (o : cop) : comp * out :=
                      cp_rev := if v_rollback v
                                then fold_left (fun ri b => rev_remove ri (b_ip b) (b_start b)) (blocks_of p' (pk v mk)) (cp_rev s)
                                else cp_rev s;
-                     cp_sess := cp_sess s; cp_pend := cp_pend s |}, RBlock true mb)
+                     cp_sess := cp_sess s; cp_pend := cp_pend s; cp_deg := cp_deg s |}, RBlock true mb)
            | None => pba_activate v c s sid (pk v k) dp_ok obs
            end
   | CRelease sid k _ =>
       let pending := existsb (fun e => pend_sid e =? sid) (cp_pend s) in
-      if negb (existsb (N.eqb sid) (cp_sess s)) && negb (v_late v && pending) then (s, ROk)
+      let preserved := existsb (N.eqb sid) (cp_deg s) in
+      let deg' := if v_degrel v then sess_del sid (cp_deg s) else cp_deg s in
+      if negb (existsb (N.eqb sid) (cp_sess s)) && negb (v_late v && pending) && negb (v_degrel v && preserved)
+      then ({| cp_pool := cp_pool s; cp_rev := cp_rev s; cp_sess := cp_sess s; cp_pend := cp_pend s; cp_deg := deg' |}, ROk)
       else
         let bl := blocks_of (cp_pool s) (pk v k) in
         let pend' := if v_late v then filter (fun e => negb (pend_sid e =? sid)) (cp_pend s) else cp_pend s in
         match bl with
         | [] => ({| cp_pool := cp_pool s; cp_rev := cp_rev s; cp_sess := sess_del sid (cp_sess s);
-                    cp_pend := pend' |}, ROk)
+                    cp_pend := pend'; cp_deg := deg' |}, ROk)
         | _ => ({| cp_pool := release c (cp_pool s) (pk v k);
                    cp_rev := fold_left (fun ri b => rev_remove ri (b_ip b) (b_start b)) bl (cp_rev s);
-                   cp_sess := sess_del sid (cp_sess s); cp_pend := pend' |}, ROk)
+                   cp_sess := sess_del sid (cp_sess s); cp_pend := pend'; cp_deg := deg' |}, ROk)
         end
   | CRestorePresent sid mk mb bulk obs =>
       if negb (bulk =? 0) then
@@ -540,17 +564,18 @@ Definition cstep (v : variant) (c : cfg) (s : comp) (o : cop) : comp * out :=
           (* before 285c7b2: the error is only logged, the mapping is still indexed and the session recorded *)
           if v_validate v then (s, RRestoreErr) else (commit_mapping v s (cp_pool s) sid mk mb, RRestoreErr)
       end
-  | CRestoreDegraded mk mb =>
+  | CRestoreDegraded sid mk mb =>
       match restore v c (cp_pool s) mk mb true with
       | Some p' => ({| cp_pool := p'; cp_rev := rev_add v (cp_rev s) mk mb; cp_sess := cp_sess s;
-                       cp_pend := cp_pend s |}, ROk)
+                       cp_pend := cp_pend s; cp_deg := sess_add sid (cp_deg s) |}, ROk)
       | None => (s, RRestoreErr)
       end
   | CComplete => (s, ROk)
   end.
 Definition crun (v : variant) (c : cfg) (s : comp) (ops : list cop) : comp :=
   fold_left (fun s o => fst (cstep v c s o)) ops s.
-Definition comp_init (p : pool) : comp := {| cp_pool := p; cp_rev := rev_empty; cp_sess := []; cp_pend := [] |}.
+Definition comp_init (p : pool) : comp :=
+  {| cp_pool := p; cp_rev := rev_empty; cp_sess := []; cp_pend := []; cp_deg := [] |}.
 (* events whose dataplane add outcome is known before the next event *)
 Definition sync_op (o : cop) : bool :=
   match o with CActivateLate _ _ _ | CAddComplete _ _ => false | _ => true end.
@@ -590,7 +615,9 @@ Fixpoint configure_all (v : variant) (rs : list rawcfg) : option (list (cfg * po
   end.
 (* None: the configuration is rejected (or ConfigurePool panics) *)
 Definition mconfigure (v : variant) (rs : list rawcfg) : option (list (cfg * pool)) :=
-  if v_xpool v && negb (pools_valid rs) then None else configure_all v rs.
+  if v_xpool v && negb (pools_valid rs) then None
+  else if v_cfgcheck v && negb (forallb pool_ok rs) then None
+  else configure_all v rs.
 Definition mstep (v : variant) (ps : list (cfg * pool)) (io : nat * op) : list (cfg * pool) :=
   upd_nth (fst io) (fun cp => (fst cp, fst (step v (fst cp) (snd cp) (snd io)))) ps.
 Definition mrun (v : variant) (ps : list (cfg * pool)) (ops : list (nat * op)) : list (cfg * pool) :=
